@@ -54,6 +54,9 @@ type world struct {
 	rules []rule
 	occ   map[string]int
 	objs  []client.Object
+	// before is called ahead of every intercepted API call (used to let the environment make
+	// progress between two reads of one reconcile)
+	before func(verb, kind string)
 	inner client.WithWatch
 	c     client.WithWatch
 }
@@ -95,6 +98,9 @@ func classify(err error) string {
 }
 
 func (w *world) call(verb, kind, key string, real func() error) error {
+	if w.before != nil {
+		w.before(verb, kind)
+	}
 	w.mu.Lock()
 	ok := verb + "/" + kind + "/" + key
 	ak := verb + "/" + kind + "/"
@@ -185,9 +191,13 @@ type provider struct {
 	*fake.CloudProvider
 	list    []*v1.NodeClaim
 	listErr error
+	onList  func() // called ahead of every List
 }
 
 func (p *provider) List(context.Context) ([]*v1.NodeClaim, error) {
+	if p.onList != nil {
+		p.onList()
+	}
 	if p.listErr != nil {
 		return nil, p.listErr
 	}
@@ -288,13 +298,14 @@ func main() {
 	for _, f := range []struct {
 		name string
 		run  func(*kit.Ctx)
-	}{{"expiration", runExpiration}, {"gc", runGC}, {"liveness", runLiveness}, {"repair", runRepair}} {
+	}{{"expiration", runExpiration}, {"gc", runGC}, {"gc-two-reads", runGC2}, {"liveness", runLiveness}, {"repair", runRepair}} {
 		t0, n0 := time.Now(), c.NextID()
 		f.run(c)
 		fmt.Fprintf(os.Stderr, "c16: %-10s %5d cases %6.1fs\n", f.name, c.NextID()-n0, time.Since(t0).Seconds())
 	}
 	c.Meta.Rule = "four real Reconcile functions under the fake client, FakeClock and an interceptor fault plan. " +
 		"expiration: full product managed x {live,deleting,absent} x ttl x {-1s,-1ns,0,+1ns,+1s} x delete fault; " +
+		"gc two reads: an environment event (claim launches+registers, instance terminates / is marked terminating / appears, claim registers) is fired before whichever of NodeClaim List / cloudProvider.List comes second; oracle on the observed order; " +
 		"gc: full single-claim product registered x deleting x provider listing x node state x lookup fault x delete fault, plus random multi-claim worlds; " +
 		"liveness: condition states x clock at both thresholds +-{1s,1ns} x pool-update faults x delete faults; " +
 		"repair: policy/condition/toleration boundary sweep, breaker sweep n=0..12 x unhealthy around ceil(n/5), fault sweep, random worlds. " +
@@ -303,6 +314,7 @@ func main() {
 	c.Meta.Corr = []string{
 		"expiration.Controller.Reconcile = C16.Model.expire (Delete calls, result class)",
 		"garbagecollection.Controller.Reconcile = C16.Model.gc (deleted NodeClaim names, result class)",
+		"garbagecollection.Controller.Reconcile with an environment event between its two snapshot reads = C16.Model.gc2 (read order, deleted names, result class)",
 		"lifecycle.Liveness.Reconcile = C16.Model.liveness (Delete calls, result class)",
 		"health.Controller.Reconcile = C16.Model.repair (Patch calls, Delete calls, result class)",
 	}
